@@ -13,6 +13,8 @@ ID = "C20"
 LEAN_TARGETS = ["PV.Props.C20"]
 # T-C tie (DESIGN 2.3): kernels traced from the current source are proved equal to the model over the reals
 EQUIV = {'PV.Equiv.Look': ['kep2xyz_eq']}
+import symtrace_sgp4  # noqa: E402  (static lists of the SGP4 stage-equivalence theorems)
+EQUIV.update(symtrace_sgp4.EQUIV_SGP4)
 RULE = ("accepted near-earth TLEs (e up to 0.4, any inclination, |B*| <= 0.003; the repo's TLEs and the generator) x times within "
         "+-7 days; correspondence: radius, rdotk, rfdotk, the three angles and the cartesian state model vs kep2xyz at 1e-11; "
         "oracle (no SGP4 re-implementation): velocity vs central difference of positions (0.15 %), distance within perigee/apogee "
